@@ -378,6 +378,8 @@ class Executor:
             return getattr(_string, attr)
         if modname in ('logging', 'warnings', 'typing'):
             return Opaque(key)
+        if modname == 'decimal' and attr == 'Decimal':
+            return BUILTINS['decimal.Decimal']
         if modname == 'pathlib' and attr == 'Path':
             return BUILTINS['pathlib.Path']
         raise Unsupported('module attribute %s' % key)
@@ -974,7 +976,13 @@ class Executor:
             if sym in ('//', '%'):
                 if self.ctx.branch(compare('==', b, 0)):
                     raise PyRaise('ZeroDivisionError')
-                if not isinstance(b, int) or b <= 0:
+                if isinstance(b, float) and b > 0 and isinstance(a, Sym) and sym == '%':
+                    # real remainder for a >= 0 (Decimal % has the sign of the dividend; callers guarantee a >= 0
+                    # or accept floor semantics - stated where used)
+                    za = to_z3_num(a, True)
+                    zb = real_val(b)
+                    return Sym(simp(za - zb * z3.ToReal(z3.ToInt(za / zb))))
+                if not isinstance(b, int) or isinstance(b, bool) or b <= 0:
                     raise Unsupported('// or % with non-constant or non-positive divisor')
                 return arith(sym, a, b)
             if isinstance(a, (Sym, int, float, bool)) and isinstance(b, (Sym, int, float, bool)):
